@@ -18,6 +18,7 @@ import Paroxy.Proofs.HintsAllTexts
 import Paroxy.Model.ParseGlue
 import Paroxy.Proofs.NodeSpan
 import Paroxy.Proofs.NodeSpanTree
+import Paroxy.Proofs.NodeCaptures
 import Paroxy.Proofs.FlatEntries
 import Paroxy.Props.C15
 namespace Paroxy.Props.C02
@@ -225,6 +226,59 @@ theorem C02_node_span (t0 t : Val) (hwf : treeOk2 t = true) (hnames : namesOkTre
     rw [this] at hm; exact hm
   have hg := hG m hm' hP
   exact ⟨hg, fun b hb => goodSpan_binding hg hb⟩
+
+/-- **C02 (captured positions).** On the dump of a well-formed tree, every position captured by a `node`
+match of a positioned type is the position text of a node of the tree that carries a line number — no
+hypothesis on the line numbers. -/
+theorem C02_node_captures (t0 t : Val) (hwf : treeOk2 t = true) :
+    ∀ m ∈ nodeMatches (dumpP (hashFn t0) [] [] t), (posTypes t).contains m.1 = true →
+      ∀ p ∈ m.2, ∃ ty n a, (ty, n) ∈ positionedNodes t ∧ p = posText n a := by
+  intro m hm hP
+  have hall : ∀ e ∈ entries [] [] t, e.ok2 = true ∧ e.typed (posTypes t).contains = true := by
+    intro e he
+    have := List.all_eq_true.mp hwf e he
+    simpa using this
+  have hd : dumpP (hashFn t0) [] [] t = (entries [] [] t).flatMap (Entry.lines (hashFn t0)) :=
+    dumpP_eq_entries (hashFn t0) [] [] t
+  rw [hd] at hm
+  exact nodeMatches_entries_captures (hashFn t0) (eq_not_mem_hashFn t0) (hashNoNewline_hashFn t0) _
+    (entries [] [] t) (fun e he => (hall e he).1) (fun e he => (hall e he).2) m hm hP
+
+/-- **C02 (node spans are valid line ranges).** With the single assumption on CPython that the line
+numbers of the tree lie within the listing (`1 ≤ lineno ≤ N` for every positioned node), every `node:`
+occurrence of a positioned type is bound to a span `1 ≤ start ≤ end ≤ N`. -/
+theorem C02_node_span_valid (t0 t : Val) (N : Nat) (hwf : treeOk2 t = true) (hnames : namesOkTree t = true)
+    (hmono : lastDescMono [] [] t = true) (hlines : ∀ x ∈ positionedNodes t, 1 ≤ x.2 ∧ x.2 ≤ N) :
+    ∀ m ∈ nodeMatches (dumpP (hashFn t0) [] [] t), (posTypes t).contains m.1 = true →
+      ∀ b, nodeBinding? m = some b → 1 ≤ b.2.start ∧ b.2.start ≤ b.2.stop ∧ b.2.stop ≤ N := by
+  intro m hm hP b hb
+  obtain ⟨hg, hle⟩ := C02_node_span t0 t hwf hnames hmono m hm hP
+  have hcap := C02_node_captures t0 t hwf m hm hP
+  have bound : ∀ n a, posText n a ∈ m.2 → 1 ≤ n ∧ n ≤ N := by
+    intro n a hp
+    obtain ⟨ty, n', a', hmem, he⟩ := hcap _ hp
+    have : n = n' := by
+      have := congrArg parsePos? he
+      simp [parsePos_posText] at this; exact this.1
+    rw [this]; exact hlines (ty, n') hmem
+  obtain ⟨n, a, h | ⟨n', a', h, _⟩⟩ := hg
+  · obtain ⟨sfx, ps⟩ := m
+    simp only at h; subst h
+    have hb' := hb
+    simp only [nodeBinding?, posToSpan?, List.head?_cons, List.getLast?_singleton, parsePos_posText,
+      Option.map_some, Option.some.injEq] at hb'
+    have hn := bound n a (by simp)
+    rw [← hb']; exact ⟨hn.1, Nat.le_refl _, hn.2⟩
+  · obtain ⟨sfx, ps⟩ := m
+    simp only at h; subst h
+    have hb' := hb
+    simp only [nodeBinding?, posToSpan?, List.head?_cons, List.getLast?_cons_cons, List.getLast?_singleton,
+      parsePos_posText, Option.map_some, Option.some.injEq] at hb'
+    have hn := bound n a (by simp)
+    have hn' := bound n' a' (by simp)
+    have := hle b hb
+    rw [← hb'] at this ⊢
+    exact ⟨hn.1, this, hn'.2⟩
 
 /-- The former, stronger hypothesis (line numbers non-decreasing along the whole pre-order enumeration)
 is also sufficient; it fails on decorated definitions. -/
